@@ -225,7 +225,33 @@ def w_c20(seed):
     return {"found": False, "note": f"{len(inputs)} inputs with HTML metacharacters render with no foreign tag"}
 
 
-FINDERS = {"C18": w_c18, "C06": w_c06, "C02": lambda s: w_c06(s, want_c02=True), "C11": w_c11, "C12": w_c12, "C21": w_c21, "C20": w_c20}
+# ---------------------------------------------------------------- C09
+C09_PROGRAMS = [
+    ("let offset_a = 10\nlet offset_b = 20\nlet scale = 300\nfn scaled(x) = x * scale where scale = x + 1\nfn global_scale() = scale\n[scaled(2), global_scale(), scale]", "[6, 300, 300]"),
+    ("let x = 1\nlet x = x + 1\nfn f(x) = x * 10\n[x, f(3), f(x)]", "[2, 30, 20]"),
+    ("if 1 < 2 then 10 else 20", "10"), ("if 2 < 1 then 10 else 20", "20"), ("if NaN < 1 then 1 else 2", "2"),
+    ("!(NaN < 1)", "true"), ("!(1 < NaN)", "true"), ("!(2 <= 1)", "true"), ("!(1 == 1)", "false"),
+    ("[1, 2, 3]", "[1, 2, 3]"), ("head([7, 8, 9])", "7"), ("len([4, 5, 6, 7])", "4"), ("cons(1, [2, 3])", "[1, 2, 3]"), ("cons_end(4, [2, 3])", "[2, 3, 4]"),
+    ("struct P { a: Scalar, b: Scalar }\nlet p = P { b: 2, a: 1 }\n[p.a, p.b]", "[1, 2]"),
+    ("let a = 3\n\"{a}-{a + 1}-{a + 2}\"", "\"3-4-5\""),
+    ("fn sub3(a, b, c) = a - b - c\nsub3(10, 3, 2)", "5"), ("10 - 3 - 2", "5"), ("2^3^2", "512"), ("-2^2", "-4"),
+    ("true && false || true", "true"), ("fn fact(n) = if n < 1 then 1 else n * fact(n - 1)\nfact(5)", "120"),
+    ("fn twice(f, x) = f(f(x))\nfn inc(x) = x + 1\ntwice(inc, 5)", "7"), ("3 |> sqr", "9"),
+    ("let t = if true then if false then 1 else 2 else 3\nt", "2"),
+]
+
+
+def w_c09(seed):
+    got, raw = session([p for p, _ in C09_PROGRAMS])
+    for i, (prog, want) in enumerate(C09_PROGRAMS):
+        r = got.get(i, [])
+        val = next((v for k, v in r if k == "OK"), None)
+        if val is None or val.strip() != want:
+            return {"found": True, "kind": "session", "what": f"program evaluates to {val!r} (or fails: {r[:1]}) but its source means {want}", "input": prog, "output": str(r)[:400], "cmd": f"{BIN} session", "stdin": prog}
+    return {"found": False, "note": f"{len(C09_PROGRAMS)} programs (shadowing, where-clauses, conditionals, NaN comparisons, lists, structs, strings, recursion, function values) evaluate to their expected values"}
+
+
+FINDERS = {"C09": w_c09, "C18": w_c18, "C06": w_c06, "C02": lambda s: w_c06(s, want_c02=True), "C11": w_c11, "C12": w_c12, "C21": w_c21, "C20": w_c20}
 
 
 def find(prop, obligation, tier):
